@@ -77,6 +77,7 @@ LOOKUP_HAVOC = {"_findbucket": {"returns": ["ref"], "rc_neutral": True},
                 "get": {"returns": ["V", "none"], "rc_neutral": True},
                 "__getitem__": {"returns": ["V"], "rc_neutral": True},
                 "has_key": {"returns": ["bool"], "rc_neutral": True},
+                "__contains__": {"returns": ["bool"], "rc_neutral": True},
                 "_search": {"returns": ["int"], "rc_neutral": True, "raises": False}}
 
 C("Tree.insert", cls="Tree", params={"key": "any", "value": "any"}, returns="bool",
@@ -94,12 +95,35 @@ C("_Tree.has_key", cls=TREE, params={"key": "any"}, returns="bool",
   ghost={"havoc_calls": LOOKUP_HAVOC, "at_call": {"_search": CONVERTED_KEY, "has_key": CONVERTED_KEY}, "no_frame": True},
   ensures={"absent_if_unconvertible": "implies(not key_ok(key), not result)", "no_read_dependency": "rc_unchanged()"},
   raises={"*": {"only_from_below": "key_ok(key)"}}, props=["C13", "C09", "C08"])
+C("_Tree.__contains__", cls=TREE, params={"key": "any"}, returns="bool",
+  ghost={"havoc_calls": LOOKUP_HAVOC, "at_call": {"_findbucket": CONVERTED_KEY}, "no_frame": True},
+  ensures={"absent_if_unconvertible": "implies(not key_ok(key), not result)", "no_read_dependency": "rc_unchanged()"},
+  raises={"*": {"only_from_below": "key_ok(key)"}}, props=["C13", "C09", "C08"])
+MINMAX_HAVOC = dict(LOOKUP_HAVOC, minKey={"returns": ["K"], "rc_neutral": True}, maxKey={"returns": ["K"], "rc_neutral": True})
+C("_Tree.minKey", cls=TREE, params={"min": ["marker", "none", "any"]}, returns="K",
+  ghost={"havoc_calls": MINMAX_HAVOC, "no_frame": True,
+         "at_call": {"_findbucket": {"bound_converted": "key_ok(min) and arg0 == to_key(min)"}}},
+  ensures={"no_read_dependency": "rc_unchanged()"},
+  raises={"ValueError": {}, "TypeError": {"bound_given": "min is not _marker and min is not None"},
+          "*": {"only_from_below": "min is _marker or min is None or key_ok(min)"}}, props=["C13", "C08"])
+C("_Tree.maxKey", cls=TREE, params={"max": ["marker", "none", "any"]}, returns="K",
+  ghost={"havoc_calls": MINMAX_HAVOC, "no_frame": True,
+         "at_call": {"_search": {"bound_converted": "key_ok(max) and arg0 == to_key(max)"}}},
+  ensures={"no_read_dependency": "rc_unchanged()"},
+  raises={"ValueError": {}, "TypeError": {"bound_given": "max is not _marker and max is not None"},
+          "*": {"only_from_below": "max is _marker or max is None or key_ok(max)"}}, props=["C13", "C08"])
 C("_Tree.__setitem__", cls=TREE, params={"key": "any", "value": "any"}, returns="none",
   ghost={"havoc_calls": {"_set": {"returns": SET_RET}}, "at_call": {"_set": CONVERTED_KV}, "no_frame": True},
   ensures={}, raises={"*": {}, "TypeError": {}}, props=["C13", "C09"])
 C("_Tree.__delitem__", cls=TREE, params={"key": "any"}, returns="none",
   ghost={"havoc_calls": {"_del": {"returns": DEL_RET}}, "at_call": {"_del": CONVERTED_KEY}, "no_frame": True},
   ensures={}, raises={"*": {}, "TypeError": {}}, props=["C13", "C09"])
+C("_Tree.pop", cls=TREE, params={"key": "any", "default": ["marker", "none", "V"]}, returns=["V", "none"],
+  ghost={"havoc_calls": {"_del": {"returns": DEL_RET}}, "at_call": {"_del": CONVERTED_KEY}, "no_frame": True},
+  ensures={}, raises={"*": {}, "TypeError": {}, "KeyError": {}}, props=["C13", "C09"])
+C("TreeSet.remove", cls="TreeSet", params={"key": "any"}, returns="none",
+  ghost={"havoc_calls": {"_del": {"returns": DEL_RET}}, "at_call": {"_del": CONVERTED_KEY}, "no_frame": True},
+  ensures={}, raises={"*": {}, "TypeError": {}, "KeyError": {}}, props=["C13", "C09"])
 C("_Tree.setdefault", cls=TREE, params={"key": "any", "value": "any"}, returns=["V", "none"],
   ghost={"havoc_calls": {"_set": {"returns": SET_RET}}, "at_call": {"_set": CONVERTED_KV}, "no_frame": True},
   ensures={}, raises={"*": {}, "TypeError": {}}, props=["C13", "C09"])
